@@ -26,6 +26,8 @@ DRIVERS = [("main", "format_code"), ("processing", "fix.<locals>.fix_decorator.<
            ("processing", "chain.<locals>.func_chain"), ("main", "format_files")]
 # explicit raise / assert statements known to be reachable from format_code on valid input (confirmed dynamically)
 REACHABLE_RAISES = {
+    ("fixes._get_func_name_start_end", "raise RuntimeError(f'Cannot find {node.name} in code block:\\n{codeblock}')"):
+        "format_code('def \\ufb01nd(x):\\n    return x\\nprint(\\ufb01nd(1))\\n') -> RuntimeError (the tree has the NFKC-normalised name `find`, the text has the ligature)",
     ("style.rename_variable", "raise RuntimeError(f'Unable to find a replacement name for {variable}')"):
         "format_code('\\u00e9 = 1\\nprint(\\u00e9)\\n') -> RuntimeError (non-ASCII identifier has no snake_case form)",
     ("fixes.align_variable_names_with_convention", "assert isinstance(target, (ast.Name, ast.Attribute))"):
@@ -1707,6 +1709,7 @@ class ValidPA(PathAnalysis):
 from ..selftest import Variant  # noqa: E402
 
 VARIANTS = [
+    Variant("definition-name-searched-in-normalised-form-only", "FIRE", "fixes", "    raise RuntimeError(f\"No definition of {node.name} in code block:\\n{codeblock}\")\n", "    raise RuntimeError(f\"Cannot find {node.name} in code block:\\n{codeblock}\")\n", "R4.g"),
     Variant("recursion-without-progress-test-after-a-refusable-edit", "FIRE", "fixes",
             "            if new_source == source:\n                continue  # The change was refused\n\n            return move_before_loop(new_source)", "            return move_before_loop(new_source)", "R4.c"),
     Variant("edited-text-parsed-before-it-is-validated", "FIRE", "processing",
